@@ -639,7 +639,15 @@ func confineRunInstall(c confineCase) []Step {
 			lexical = false
 		}
 	}
-	repo := BuildSynthRepo([]SPkg{{Name: "hostile", Version: "1.0-r0", Files: files}}, []string{"x86_64"})
+	var repo *SRepo
+	func() {
+		// archive/tar refuses a few names outright (trailing slash on a file, empty name): nothing to install then
+		defer func() { recover() }()
+		repo = BuildSynthRepo([]SPkg{{Name: "hostile", Version: "1.0-r0", Files: files}}, []string{"x86_64"})
+	}()
+	if repo == nil {
+		return []Step{{Line: "cf.effect\tinstall\t0\t", Go: "pass", Mode: "verdict", NoImpl: true, Trivial: true, Desc: "archive/tar cannot encode: " + strings.Join(names, ", "), Tags: []string{"install:unencodable"}}}
+	}
 	keyPath := repo.WriteTo(t.repo)
 	des := t.designated()
 	before := t.snapshot(des)
